@@ -102,6 +102,14 @@ LLNL_OPTS = ["temperatures", "temperature", "temp", "adh", "debye_huckel_a", "dh
              "bdot", "b_dot", "c_co2", "co2_coefs"]
 LLNL_KEY = {0: "temps", 1: "temps", 2: "temps", 3: "adh", 4: "adh", 5: "adh", 6: "bdh", 7: "bdh", 8: "bdh", 9: "bdot",
             10: "bdot", 11: "co2", 12: "co2"}
+PITZER_OPTS = ["b0", "b1", "b2", "c0", "theta", "lamda", "zeta", "psi", "macinnes", "macinnis", "mac", "redox", "pe", "alphas",
+               "mu", "eta", "etheta", "use_etheta", "lambda", "aphi"]
+SIT_OPTS = ["epsilon", "epsilon1"]
+PZ_NSPECIES = {"b0": 2, "b1": 2, "b2": 2, "c0": 2, "theta": 2, "lamda": 2, "lambda": 2, "alphas": 2, "zeta": 3, "psi": 3, "mu": 3,
+               "eta": 3, "epsilon": 2, "epsilon1": 2}
+# pitz_param_type numbers of the engine (global_structures.h)
+PZ_TYPE = {"b0": 0, "b1": 1, "b2": 2, "c0": 3, "theta": 4, "lamda": 5, "lambda": 5, "zeta": 6, "psi": 7, "alphas": 9, "mu": 10,
+           "eta": 11, "epsilon": 13, "epsilon1": 14}
 NUM = re.compile(r"^[+-]?(\d+\.?\d*|\.\d+)([eEdD][+-]?\d+)?")
 
 
@@ -188,6 +196,16 @@ class DbText:
         block = None
         cur = None
         lkey = None
+        pkey = None
+        self.pitzer = {}       # (engine type number, sorted set of species names) -> a[0..5]
+        self.parse(path)
+
+    def parse(self, path):
+        """(also used for a file run on top of the database, e.g. Concrete_PZ.dat: later definitions replace earlier ones)"""
+        block = None
+        cur = None
+        lkey = None
+        pkey = None
         for line in logical_lines(path):
             w = line.split()
             kw = w[0].upper()
@@ -198,6 +216,7 @@ class DbText:
                 self.kinds.add(kw)
                 cur = None
                 lkey = None
+                pkey = None
                 continue
             if block == "SOLUTION_MASTER_SPECIES":
                 if len(w) >= 2:
@@ -236,6 +255,23 @@ class DbText:
                         self.species[cur]["opts"].append("c")
                     elif o == "activity_water":
                         self.species[cur]["opts"].append("w")
+            elif block in ("PITZER", "SIT"):
+                opts = PITZER_OPTS if block == "PITZER" else SIT_OPTS
+                rest = w
+                if w[0].startswith("-") and not NUM.match(w[0]):
+                    oi = find_option(w[0], opts, True)
+                    pkey = opts[oi] if oi is not None else None
+                    rest = w[1:]
+                nsp = PZ_NSPECIES.get(pkey)
+                if nsp is not None and len(rest) > nsp:
+                    vals = scan_numbers(rest[nsp:], 6)
+                    if vals:
+                        typ = PZ_TYPE[pkey]
+                        self.pitzer[(typ, tuple(sorted(set(rest[:nsp]))))] = vals + [0.0] * (6 - len(vals))
+                elif pkey == "aphi" and rest:
+                    vals = scan_numbers(rest, 6)
+                    if vals:
+                        self.pitzer[(15, ())] = vals + [0.0] * (6 - len(vals))
             elif block == "LLNL_AQUEOUS_MODEL_PARAMETERS":
                 rest = w
                 if w[0].startswith("-") and not NUM.match(w[0]):
@@ -524,10 +560,25 @@ def pz_model_block(pz):
     return L
 
 
-def judge_pz(ctx, pz, stats):
-    """engine arrays vs Model/Pitzer.lean; returns list of problems"""
+def judge_pz(ctx, pz, stats, dbtab=None):
+    """engine arrays vs Model/Pitzer.lean; returns list of problems. With `dbtab` (this module's reading of the PITZER / SIT
+    blocks of the database text) the engine's coefficient table a[0..5] of every listed parameter is compared with it."""
     if pz is None or pz["kind"] == "none" or not pz["sp"]:
         return []
+    pre = []
+    if dbtab is not None:
+        nm = {s["idx"]: s["name"] for s in pz["sp"]}
+        for p in pz["pp"]:
+            if p["type"] == 8:        # ETHETA entries are created by pitzer_tidy, not read
+                continue
+            names = tuple(sorted({nm.get(j) for j in p["i"] if j >= 0 and nm.get(j) is not None}))
+            want = dbtab.get((p["type"], names))
+            stats["pz_table_entries"] = stats.get("pz_table_entries", 0) + 1
+            got = [unhex(x) for x in p["a"]]
+            if want is None or [float(x) for x in want] != got:
+                pre.append({"kind": "parameter-table", "type": p["type"], "species": names, "database_text": want, "engine": got})
+    if pre:
+        return pre[:6]
     if pz["patm"] > 1.0:
         stats["pz_patm_gt1"] += 1
     out = pmodel(ctx, "\n".join(pz_model_block(pz)) + "\n")
@@ -681,6 +732,8 @@ def run_pz_db(ctx, exe, dbname, extra, npaths, nrand, stats):
     db = vlib.REPO / "database" / dbname
     ex = (vlib.REPO / "database" / extra) if extra else None
     dbt = DbText(db)
+    if ex:
+        dbt.parse(ex)
     names = db_names(dbt)
     label = dbname + ("+" + extra if extra else "")
     out = {"label": label, "bad": [], "corr": []}
@@ -704,7 +757,7 @@ def run_pz_db(ctx, exe, dbname, extra, npaths, nrand, stats):
     for run in ses["runs"]:
         for sol in run["sols"]:
             if run["ret"] == 0 and sol.get("pz"):
-                pr = judge_pz(ctx, sol["pz"], stats)
+                pr = judge_pz(ctx, sol["pz"], stats, dbt.pitzer)
                 if pr:
                     out["corr"].append({"db": dbname, "extra": extra, "case": cases[int(run["id"])], "where": "solution", "problems": pr[:6]})
             if run["ret"] == 0 and "sol" in sol:
@@ -885,7 +938,8 @@ def run_checks(ctx, ok):
         "gd_max_relative_residual": stats["gd_max_rel"],
         "gd_max_relative_residual_after_A0_correction": stats["gd_max_rel_corr"], "gd_worst_path": stats.get("gd_worst"), "log10_sum_m_histogram_-4..1": stats["sum_m_hist"],
         "evaluations_with_patm_gt_1": stats["pz_patm_gt1"],
-        "sit_neutral_neutral_pairs_evaluated": stats.get("sit_neutral_pairs", 0)}
+        "sit_neutral_neutral_pairs_evaluated": stats.get("sit_neutral_pairs", 0),
+        "parameter_table_entries_tied_to_database_text": stats.get("pz_table_entries", 0)}
     if stats["db_load_failed"]:
         ctx.cov["databases_not_loaded"] = stats["db_load_failed"]
     ctx.cov["traces_validated_against_impl"] = stats["judged_runs"] + stats["pz_evals"]
@@ -981,21 +1035,30 @@ def replay_case(ctx, exe, data):
 
 
 MANIFEST = dict(
-    technique="Lean 4 theorems on executable models of gammas() / read_species' model selection / the Pitzer-SIT sums, tied to the "
-              "C++ by per-species differential correspondence (friend harness + BASIC read-outs) and by thermodynamic oracles "
-              "(integrated Gibbs-Duhem, water activity) on real outputs",
+    technique="Lean 4 theorems on executable models of gammas() / read_species' model selection / the Pitzer-SIT sums; a source "
+              "translator (tools/gen_pitzer.py -> Gen/GammaSrc.lean) pins the modelled statements; per-species differential "
+              "correspondence (friend harness + BASIC read-outs), in-process comparison of pitzer()/sit() on random inputs, and "
+              "thermodynamic oracles (integrated Gibbs-Duhem, water activity) on real outputs",
     text="Theorems (Properties/C16.lean): the model-selection rule is total and exclusive; log gamma = 0 at I = 0 and depends on z "
          "only through z^2 for every branch; the LLNL grid interpolation as coded is a convex combination of adjacent nodes and exact "
-         "at nodes; for every parameter list and composition the constant-coefficient virial part of pitzer() (beta0, Cphi, theta, psi, "
-         "lambda, zeta, mu, eta with pitzer_tidy's multipliers) satisfies Gibbs-Duhem and Euler identically (dual numbers over Q); "
-         "G + G' = exp(-x); a_w = exp(-M_w phi sum m). Obligation over generated data: reported LG = Float model at reported MU, "
+         "at nodes; pitzer_gibbs_duhem: for the whole pitzer() skeleton (Debye-Hueckel F, beta0, beta1 g, beta2 g, Cphi, theta, E-theta, "
+         "psi, lambda, zeta, mu, eta with pitzer_tidy's multipliers, z CSUM, z^2 F, MacInnes scaling) and every parameter list, "
+         "composition and direction, sum m_k d(LGAMMA_k) = d(2 OSMOT) on dual numbers over Q, under explicit hypotheses (2I = sum m z^2, "
+         "electroneutrality with MacInnes, sqrt I ^2 = I, derivative rules of sqrt/ln, d g = GP/I dI, exp = G + GP, d Etheta = Etheta' dI); "
+         "virial_gibbs_duhem for the constant-coefficient part without those hypotheses; G + GP = exp(-x) for the coded G, GP; "
+         "a_w = exp(-sum m phi / 55.50837) and cosmot = 1 + 2 OSMOT / OSUM; *_as_modelled: the statements of pitzer(), G, GP, ETHETAS, "
+         "calc_pitz_param, pitzer_tidy, sit(), calc_sit_param, gammas(), read_species in the current source are the ones the models "
+         "transcribe (regenerated every run, proved by rfl). Obligation over generated data: reported LG = Float model at reported MU, "
          "DH_A, DH_B (1e-9) for every species of every solution, with parameters from the engine and, independently, from this "
-         "module's parse of the database text. Correspondence: pitzer()/sit() arrays vs Model/Pitzer (1e-9). Oracles: integrated "
-         "Gibbs-Duhem (1e-4) and a_w (1e-5) on pitzer.dat, sit.dat, frezchem.dat, ColdChem.dat, pitzer.dat+Concrete_PZ.dat.",
-    note="Trusted: Lean kernel, harness/ph_gamma.cpp (friend access, BASIC callback), the Python parser/diff/quadrature in "
-         "tools/props/c16.py. Partial: Gibbs-Duhem for the ionic-strength-dependent terms (Debye-Hueckel F, beta1/beta2 g-functions, "
-         "E-theta) is a numerical oracle on real outputs, not a theorem; pitzer() is modelled for patm <= 1 only; exchange and "
-         "surface species (gflag 4, 6) are outside the model; J, J' (ETHETA_PARAMS) enter the model as numbers read from the engine. "
+         "module's parse of the database text. Correspondence: pitzer()/sit() arrays vs Model/Pitzer (1e-9) after real solutions and "
+         "on random molalities / temperatures / pressures (patm > 1 branch) / parameter values / SIT epsilon1 and neutral pairs; the "
+         "engine's a[0..5] table vs this module's parse of the PITZER / SIT blocks (exact). Oracles: integrated Gibbs-Duhem (1e-4) and "
+         "a_w (1e-5) on pitzer.dat, sit.dat, frezchem.dat, ColdChem.dat, pitzer.dat+Concrete_PZ.dat.",
+    note="Trusted: Lean kernel, harness/ph_gamma.cpp (friend access, BASIC callback), tools/gen_pitzer.py (statement extraction), the "
+         "Python parser/diff/quadrature in tools/props/c16.py. Partial: the derivative relations between g, g', J, J' are hypotheses of "
+         "pitzer_gibbs_duhem (on real outputs they are covered by the numerical Gibbs-Duhem oracle); J, J' (ETHETA_PARAMS) and the "
+         "alpha values enter the model as numbers read from the engine; the theorem is for patm <= 1 (the pressure branch is modelled "
+         "and tied in-process only); exchange and surface species (gflag 4, 6) are outside the model. "
          "Known finding gd-dh-slope-depends-on-aw: in the Pitzer model A0 follows the water activity (p_sat in calc_rho_0), "
          "which breaks Gibbs-Duhem by up to 3e-4 near 100 C; a path whose excess over 1e-4 is accounted for by the recorded A0 "
          "variation is reported as that finding (a fixed probe path reproduces it on every run), any other excess is a violation.",
